@@ -239,6 +239,28 @@ def all_items():
         add("SPC(5)", "wagner", "QAM64(gray=False,normalize=False)", "ideal", noise_var=1.0)
         add("SPC(7)", "wagner", "QAM256(gray=True,normalize=True)", "ideal", noise_var=1.0)
         add("Polar(8,4)", "sc", "QAM256(gray=True,normalize=True)", "ideal", noise_var=1.0)
+    if TIER == "thorough":
+        # cross product: every code/decoder of the catalogue with every memoryless modem whose symbol size divides n
+        # (differential and pi/4 modems carry known label findings of C05 and are left to C05/C15)
+        have = {it["config"] for it in items}
+        mems = [m for m in modem_specs(max_order=64) if m["name"].startswith(("BPSK", "QPSK", "PSK", "QAM", "PAM")) and m["name"] != "BPSK(real)"]
+        lens = {"ExtHamming(8,4)": 8, "Hamming(7,4)": 7, "BCH(7,4)": 7, "Repetition(4)": 4, "Repetition(6)": 6, "SPC(3)": 4, "SPC(5)": 6, "SPC(7)": 8, "LDPC(6,3)": 6, "Polar(8,4)": 8}
+        hard = [("ExtHamming(8,4)", "syndrome"), ("ExtHamming(8,4)", "ml"), ("Hamming(7,4)", "syndrome"), ("Hamming(7,4)", "ml"), ("BCH(7,4)", "bm"),
+                ("Repetition(4)", "ml"), ("Repetition(6)", "ml"), ("Repetition(6)", "syndrome")]
+        soft = [("SPC(3)", "wagner"), ("SPC(5)", "wagner"), ("SPC(7)", "wagner"), ("LDPC(6,3)", "minsum"), ("Polar(8,4)", "sc")]
+        for m in mems:
+            for code, dec in hard:
+                if lens[code] % m["bps"] == 0:
+                    for chn in ("ideal", "flips"):
+                        before = len(items)
+                        add(code, dec, m["name"], chn)
+                        if items[-1]["config"] in have:
+                            items.pop()
+            for code, dec in soft:
+                if lens[code] % m["bps"] == 0 and not (dec == "minsum" and m["bps"] >= 4):
+                    add(code, dec, m["name"], "ideal", noise_var=1.0)
+                    if items[-1]["config"] in have:
+                        items.pop()
     # bounded symbol displacement on BPSK (d_min = 2: |d| < 1 per axis keeps every symbol in its own decision region)
     add("Hamming(7,4)", "syndrome", "BPSK", "displace", dlim=0.99)
     add("ExtHamming(8,4)", "ml", "QPSK(normalize=True)", "displace", dlim=0.7)
